@@ -32,7 +32,8 @@ fn pdata(n: u64) -> csl::PlutusData { csl::PlutusData::new_integer(&csl::BigInt:
 
 // ---- scripts: Plutus script id s -> bytes s,s,.. (20+s of them), language 1 + s % 3; native script id k -> signature of key k
 pub fn plang(sid: u8) -> csl::Language { match sid % 3 { 0 => csl::Language::new_plutus_v1(), 1 => csl::Language::new_plutus_v2(), _ => csl::Language::new_plutus_v3() } }
-pub fn pscript(sid: u8) -> csl::PlutusScript { csl::PlutusScript::new_with_version(vec![sid; 20 + sid as usize], &plang(sid)) }
+// scripts 5 and 6 share the compiled code of scripts 1 and 2 under another language version (same bytes, different hash)
+pub fn pscript(sid: u8) -> csl::PlutusScript { let code = if sid >= 5 { sid - 4 } else { sid }; csl::PlutusScript::new_with_version(vec![code; 20 + code as usize], &plang(sid)) }
 fn exunits(e: &J) -> csl::ExUnits { csl::ExUnits::new(&csl::BigNum::from(e[0].as_u64().unwrap_or(1000)), &csl::BigNum::from(e[1].as_u64().unwrap_or(2000))) }
 fn redeemer(tag: &csl::RedeemerTag, rid: u64, ex: &J) -> csl::Redeemer { csl::Redeemer::new(tag, &csl::BigNum::from(0u64), &pdata(rid), &exunits(ex)) }
 /// the reference script a UTxO holds: {"plutus": s} | {"native": k}
@@ -178,7 +179,13 @@ fn apply(st: &mut St, op: &J) -> Result<Map<String, J>, csl::JsError> {
         "AddInput" => {
             let u = op["u"].as_u64().unwrap();
             let x = &st.env[&u];
-            if st.selected { st.tb.add_regular_input(&x.addr, &x.input, &x.value)?; }
+            if op.get("utxo").and_then(|b| b.as_bool()) == Some(true) {
+                // the whole unspent output is handed over: the builder itself reads the reference script it holds
+                let mut o = csl::TransactionOutput::new(&x.addr, &x.value);
+                if let Some(r) = x.spec.get("ref_script") { o.set_script_ref(&script_ref_of(r)); }
+                st.inputs.add_regular_utxo(&csl::TransactionUnspentOutput::new(&x.input, &o))?; st.tb.set_inputs(&st.inputs);
+            }
+            else if st.selected { st.tb.add_regular_input(&x.addr, &x.input, &x.value)?; }
             else { st.inputs.add_regular_input(&x.addr, &x.input, &x.value)?; st.tb.set_inputs(&st.inputs); }
             st.inputs_builder_signers.insert(u, owner_of(&x.addr_spec));
             res.insert("item".into(), jbytes(&x.input.to_bytes()));
@@ -402,7 +409,8 @@ fn sign(st: &St, tx: &csl::Transaction) -> Result<Vec<u8>, csl::JsError> {
     let mut vk: BTreeSet<u8> = BTreeSet::new();
     let mut by: BTreeSet<u8> = BTreeSet::new();
     let mut owner_by_outpoint: BTreeMap<Vec<u8>, (bool, u8)> = BTreeMap::new();
-    for (_, x) in st.env.iter() { owner_by_outpoint.insert(x.input.to_bytes(), owner_of(&x.addr_spec)); }
+    // only key-owned outputs have an owner who signs; script-locked ones bring their signers through the script witnesses
+    for (_, x) in st.env.iter() { if matches!(x.addr_spec["kind"].as_str().unwrap_or("ent"), "ent" | "base" | "byron" | "ptr") { owner_by_outpoint.insert(x.input.to_bytes(), owner_of(&x.addr_spec)); } }
     let mut add_owner = |i: &csl::TransactionInput, vk: &mut BTreeSet<u8>, by: &mut BTreeSet<u8>| {
         if let Some((b, k)) = owner_by_outpoint.get(&i.to_bytes()) { if *b { by.insert(*k); } else { vk.insert(*k); } }
     };
@@ -539,7 +547,7 @@ fn rvalue(rng: &mut Rng, coin: u64, assets: u64) -> J {
 pub fn gen(rng: &mut Rng) -> J {
     let width_coin = |rng: &mut Rng| -> u64 { match rng.below(6) { 0 => 1_000_000 + rng.below(3_000_000), 1 => 65_536 * 16 + rng.below(100), 2 => (1u64 << 32) + rng.below(2_000_000) - 1_000_000,
         3 => 5_000_000_000 + rng.below(1000), 4 => 2_000_000 + rng.below(400_000), _ => 1_000_000 + rng.below(100_000_000) } };
-    let pp = json!({"a": 44, "b": 155381, "cpb": *rng.pick(&[4310u64, 4310, 4310, 1, 0, 34482]), "maxval": *rng.pick(&[5000u64, 5000, 500, 200]), "maxtx": *rng.pick(&[16384u64, 16384, 4000]),
+    let pp = json!({"a": 44, "b": 155381, "cpb": *rng.pick(&[4310u64, 4310, 4310, 1, 0, 34482]), "maxval": *rng.pick(&[5000u64, 5000, 500, 200]), "maxtx": *rng.pick(&[16384u64, 16384, 16384, 4000, 1500, 900, 600]),
                     "kd_n": jn(2_000_000), "pd_n": jn(500_000_000), "prefer_pure_change": rng.chance(1, 4), "no_burn": rng.chance(1, 4)});
     let nu = 1 + rng.below(5);
     let mut utxo = vec![];
@@ -579,7 +587,12 @@ pub fn gen(rng: &mut Rng) -> J {
         let burn = rng.chance(1, 3);
         // burning needs the asset among the inputs: give the first UTxO some of it
         if burn { utxo[0]["value"]["assets"].as_array_mut().unwrap().push(json!({"mp": 9, "n": [66], "q_n": jn(50)})); }
-        ops.push(json!({"op": "SetMint", "mints": [{"mp": 9, "n": [66], "amt": {"neg": burn, "mag_n": jn(1 + rng.below(50))}}]}));
+        let amt = 1 + rng.below(50);
+        let mut mints = vec![json!({"mp": 9, "n": [66], "amt": {"neg": burn, "mag_n": jn(amt)}})];
+        // several additions for one asset under one witness: accumulating, or cancelling to zero (which must never be emitted)
+        match rng.below(6) { 0 => mints.push(json!({"mp": 9, "n": [66], "amt": {"neg": !burn, "mag_n": jn(amt)}})), 1 => mints.push(json!({"mp": 9, "n": [66], "amt": {"neg": burn, "mag_n": jn(1 + rng.below(9))}})),
+                             2 => mints.push(json!({"mp": 9, "n": [67, 68], "amt": {"neg": false, "mag_n": jn(3)}})), _ => {} }
+        ops.push(json!({"op": "SetMint", "mints": mints}));
     }
     if rng.chance(1, 5) {
         let np = 1 + rng.below(2);
@@ -643,6 +656,16 @@ pub fn gen(rng: &mut Rng) -> J {
         ops.push(json!({"op": "SetFee", "n": jn(200_000 + rng.below(300_000))}));
     } else {
         ops.push(json!({"op": "AddChange", "to": to}));
+        // the caller keeps working on the builder after balancing succeeded: whatever a validating build still produces must obey the rules
+        if rng.chance(1, 7) {
+            match rng.below(5) {
+                0 => ops.push(json!({"op": "SetCerts", "certs": []})),
+                1 => ops.push(json!({"op": "SetCerts", "certs": [{"k": 0, "g": true, "cred": {"k": 6}, "cred2": {"k": 8}, "pool": 21, "coin_n": jn(2_000_000)}]})),
+                2 => ops.push(json!({"op": "SetWithdrawals", "wds": [{"k": 6, "amt_n": jn(1 + rng.below(900_000))}]})),
+                3 => ops.push(json!({"op": "AddOutput", "to": {"kind": "ent", "k": 12}, "value": {"coin_n": jn(1_200_000), "assets": []}})),
+                _ => ops.push(json!({"op": "AddInput", "u": 1 + rng.below(nu)})),
+            }
+        }
     }
     ops.extend(col_after);
     ops.push(json!({"op": "Build"}));
@@ -665,13 +688,16 @@ pub fn gen_plutus(rng: &mut Rng) -> J {
     let spent_holds_script = rng.chance(1, 4);
     let mut f1e = json!({"addr": {"kind": "ent", "k": 1}, "value": {"coin_n": jn(50_000_000 + rng.below(1 << 33)), "assets": []}});
     if spent_holds_script { f1e["ref_script"] = if rng.chance(1, 2) { json!({"plutus": 6}) } else { json!({"native": 11}) }; }
+    // half of the script-holding funding outputs are handed to the builder as a whole UTxO (any owner kind) instead of being declared
+    let as_utxo = spent_holds_script && rng.chance(1, 2);
+    if as_utxo { f1e["addr"] = json!({"kind": *rng.pick(&["ent", "base", "byron", "ptr"]), "k": 1 + rng.below(2)}); }
     let f1 = new_u(&mut utxo, f1e.clone(), rng);
-    if spent_holds_script {
+    if spent_holds_script && !as_utxo {
         let size = script_ref_of(&f1e["ref_script"]).to_unwrapped_bytes().len();
         ops.push(json!({"op": "AddRefInput", "u": f1, "size": size}));
     }
     let col = new_u(&mut utxo, json!({"addr": {"kind": *rng.pick(&["ent", "byron"]), "k": 2}, "value": {"coin_n": jn(6_000_000), "assets": []}}), rng);
-    ops.push(json!({"op": "AddInput", "u": f1}));
+    ops.push(json!({"op": "AddInput", "u": f1, "utxo": as_utxo}));
     // script sources: each Plutus script id is consistently provided by witness or by one reference UTxO
     let mut src: std::collections::BTreeMap<u64, J> = std::collections::BTreeMap::new();
     for sid in 1..=5u64 {
@@ -768,10 +794,12 @@ pub fn gen_plutus(rng: &mut Rng) -> J {
     ops.push(json!({"op": "CalcScriptDataHash", "langs": [1, 2, 3]}));
     let to = json!({"kind": "ent", "k": 15});
     if rng.chance(1, 3) { ops.push(json!({"op": "SetTotalCollateralAndReturn", "to": to, "n": jn(1_000_000 + rng.below(3_000_000))})); }
-    ops.push(json!({"op": "AddChange", "to": to}));
+    // mostly balanced by the builder; sometimes the caller fixes the fee somewhere between the linear part and a generous total
+    if rng.chance(1, 7) { ops.push(json!({"op": "SetFee", "n": jn(155_381 + 44 * (400 + rng.below(1200)) + rng.below(150_000))})); }
+    else { ops.push(json!({"op": "AddChange", "to": to})); }
     ops.push(json!({"op": "Build"}));
     if rng.chance(1, 3) { ops.push(json!({"op": "BuildAgain"})); }
-    let pp = json!({"a": 44, "b": 155381, "cpb": 4310, "maxval": 5000, "maxtx": 16384, "kd_n": jn(2_000_000), "pd_n": jn(500_000_000),
+    let pp = json!({"a": 44, "b": 155381, "cpb": 4310, "maxval": 5000, "maxtx": *rng.pick(&[16384u64, 16384, 16384, 3000, 2000, 1400, 1000]), "kd_n": jn(2_000_000), "pd_n": jn(500_000_000),
                     "ex": [577, 10000, 721, 10000000], "ref": [*rng.pick(&[15u64, 15, 0, 44]), 1], "dedup": spent_holds_script});
     json!({"pp": pp, "utxo": utxo, "ops": ops})
 }
